@@ -499,6 +499,175 @@ def oracle_C12(run):
 
 
 # ---------------------------------------------------------------------------
+# C01  two h2 endpoints exchange every successful send faithfully
+# ---------------------------------------------------------------------------
+def oracle_C01(run):
+    """pair histories (every byte an endpoint receives was written by the other endpoint): a delivery must not fail
+    unless the receiving endpoint had already closed the connection itself, and what the receiver reports must
+    reproduce, stream by stream and in order, what the sender's successful calls sent: header lists (normalised as C14
+    says, cookie-joined / decoded as the receiver is configured), body chunks, end of stream, reset codes, pings,
+    settings.  'In order' is checked as a prefix relation (bytes may still be in flight; frames for a stream the
+    receiver has reset are dropped), and as equality for pings and settings once everything has been delivered."""
+    import rulebook
+    out = []
+    client = roles(run)
+    cfgs, S, R = {}, {}, {}
+    injected = set()
+    final_sent = set()
+    for i, (op, ol, ml, obs) in enumerate(run.log):
+        o = op['op']
+        if o == 'new':
+            c = op['c']
+            cfgs[c] = op
+            S[c] = {'hdr': {}, 'data': {}, 'ended': set(), 'reset': {}, 'ping': [], 'settings': [], 'goaway': [], 'push': {}}
+            R[c] = {'hdr': {}, 'data': {}, 'ended': set(), 'ping': [], 'settings': [], 'push': {}}
+            continue
+        if obs is None:
+            continue
+        if o == 'recv':
+            injected.add(op['c'])
+            continue
+        r = res(obs)
+        if o == 'xfer':
+            snd, rcv = op['c'], op['to']
+            if rcv in injected or snd in injected or snd not in S or rcv not in R:
+                continue
+            if r[0] != 'ok':
+                if obs['snap_before']['state'] != 'CLOSED':
+                    out.append(fail('peer-rejected-library-output', i, res=obs['res']))
+                injected.add(rcv)
+                injected.add(snd)
+                continue
+            cfg = cfgs[rcv]
+            ni, enc = bool(cfg.get('ni', 1)), cfg.get('enc')
+
+            def deliver(hs):
+                hs = rulebook.join_cookies(hs) if ni else list(hs)
+                if enc:
+                    try:
+                        return [(n.decode(enc), v.decode(enc)) for n, v in hs]
+                    except UnicodeDecodeError:
+                        return None
+                return hs
+            for e in obs['raw_events']:
+                nm = type(e).__name__
+                k = KIND_OF_EVENT.get(nm)
+                if k and k != 'push':
+                    sid = e.stream_id
+                    lst = R[rcv]['hdr'].setdefault(sid, [])
+                    exp = S[snd]['hdr'].get(sid, [])
+                    got = [(h[0], h[1]) for h in e.headers]
+                    if len(lst) >= len(exp):
+                        out.append(fail('header-event-without-a-send', i, sid=sid, kind=k))
+                        break
+                    ek, ehs = exp[len(lst)]
+                    if ek != k or deliver(ehs) != got:
+                        out.append(fail('header-event-differs-from-send', i, sid=sid, kind=k, sent_kind=ek,
+                                        got=repr(got)[:200], sent=repr(deliver(ehs))[:200]))
+                        break
+                    lst.append(k)
+                elif k == 'push':
+                    exp = S[snd]['push'].get(e.pushed_stream_id)
+                    got = [(h[0], h[1]) for h in e.headers]
+                    if exp is None or exp[0] != e.parent_stream_id or deliver(exp[1]) != got:
+                        out.append(fail('push-event-differs-from-send', i, pushed=e.pushed_stream_id))
+                        break
+                elif nm == 'DataReceived':
+                    sid = e.stream_id
+                    lst = R[rcv]['data'].setdefault(sid, [])
+                    exp = S[snd]['data'].get(sid, [])
+                    if len(lst) >= len(exp) or exp[len(lst)] != (bytes(e.data), e.flow_controlled_length):
+                        out.append(fail('data-event-differs-from-send', i, sid=sid, got_len=len(e.data)))
+                        break
+                    lst.append(1)
+                elif nm == 'StreamEnded':
+                    if e.stream_id not in S[snd]['ended']:
+                        out.append(fail('stream-ended-without-a-send', i, sid=e.stream_id))
+                        break
+                elif nm == 'PingReceived':
+                    R[rcv]['ping'].append(bytes(e.ping_data))
+                    if R[rcv]['ping'] != S[snd]['ping'][:len(R[rcv]['ping'])]:
+                        out.append(fail('ping-differs-from-send', i))
+                        break
+                elif nm == 'RemoteSettingsChanged':
+                    new = dict((int(k2), ch.new_value) for k2, ch in e.changed_settings.items())
+                    R[rcv]['settings'].append(new)
+                    n = len(R[rcv]['settings'])
+                    want = S[snd]['settings'][n - 1] if n <= len(S[snd]['settings']) else None
+                    if want is None or dict((k2 & 0xFF if k2 > 255 else k2, v) for k2, v in want.items()) != new and want != new:
+                        out.append(fail('settings-differ-from-send', i, got=sorted(new.items()), sent=sorted((want or {}).items())))
+                        break
+                elif nm == 'StreamReset' and getattr(e, 'remote_reset', True):
+                    codes = S[snd]['reset'].get(e.stream_id)
+                    # (resets written by the peer's receive path are not calls: only a reset that matches no call and no
+                    # possible automatic reply would be wrong; the code of a call must come through unchanged)
+                    if codes and int(e.error_code) not in codes and int(e.error_code) not in (1, 5, 7, 8, 3):
+                        out.append(fail('reset-code-differs-from-send', i, sid=e.stream_id, got=int(e.error_code), sent=sorted(codes)))
+                        break
+            if out:
+                break
+            continue
+        # a call
+        c = op.get('c', 0)
+        if c not in S or r[0] != 'ok':
+            continue
+        if o in ('initiate_connection', 'initiate_upgrade'):
+            fs = _settings_frames(obs.get('appended')) or []
+            for ack, items in fs:
+                if not ack:
+                    S[c]['settings'].append(items)
+        elif o == 'update_settings':
+            S[c]['settings'].append(dict(op['settings']))
+        elif o == 'ping':
+            S[c]['ping'].append(bytes(op['data']))
+        elif o == 'send_data':
+            pad = op.get('pad')
+            fcl = len(op['data']) + (pad + 1 if pad is not None else 0)
+            S[c]['data'].setdefault(op['sid'], []).append((bytes(op['data']), fcl))
+            if op.get('es'):
+                S[c]['ended'].add(op['sid'])
+        elif o == 'end_stream':
+            S[c]['data'].setdefault(op['sid'], []).append((b'', 0))
+            S[c]['ended'].add(op['sid'])
+        elif o == 'reset_stream':
+            S[c]['reset'].setdefault(op['sid'], set()).add(op.get('code', 0))
+        elif o in ('send_headers', 'push_stream'):
+            if _ill_typed_headers(op):
+                injected.add(c)
+                continue
+            cfg = cfgs[c]
+            args = [(h[0], h[1]) for h in op['headers']]
+            hs = [(n, v) for n, v, _ in rulebook.normalise_out(args)] if cfg.get('no', 1) else \
+                [(rulebook.to_bytes(n), rulebook.to_bytes(v)) for n, v in args]
+            if o == 'push_stream':
+                S[c]['push'][op['promised']] = (op['sid'], hs)
+                continue
+            sid = op['sid']
+            if client[c]:
+                kind = 'trailers' if (c, sid) in final_sent else 'request'
+            else:
+                lead = None
+                for n, v in hs:
+                    if not n.startswith(b':'):
+                        break
+                    if n == b':status':
+                        lead = v
+                        break
+                if (c, sid) in final_sent:
+                    kind = 'trailers'
+                elif lead is not None and lead[:1] == b'1':
+                    kind = 'informational'
+                else:
+                    kind = 'response'
+            S[c]['hdr'].setdefault(sid, []).append((kind, hs))
+            if kind in ('request', 'response'):
+                final_sent.add((c, sid))
+            if op.get('es'):
+                S[c]['ended'].add(sid)
+    return out
+
+
+# ---------------------------------------------------------------------------
 # C11  settings take effect when acknowledged, one frame per ACK, in order
 # ---------------------------------------------------------------------------
 def _settings_frames(data):
@@ -2053,6 +2222,7 @@ def oracle_C25(run):
 
 
 ORACLES = {
+    'C01': oracle_C01,
     'C02': oracle_C02, 'C03': oracle_C03, 'C04': oracle_C04, 'C05': oracle_C05, 'C07': oracle_C07, 'C08': oracle_C08,
     'C09': oracle_C09, 'C10': oracle_C10, 'C11': oracle_C11, 'C12': oracle_C12, 'C14': oracle_C14, 'C15': oracle_C15, 'C16': oracle_C16, 'C13': oracle_C13, 'C17': oracle_C17, 'C18': oracle_C18,
     'C19': oracle_C19, 'C21': oracle_C21, 'C22': oracle_C22, 'C24': oracle_C24, 'C25': oracle_C25, 'C26': oracle_C26, 'C27': oracle_C27, 'C29': oracle_C29,
